@@ -88,13 +88,14 @@ type run struct {
 	c   *Case
 	emu sync.Mutex
 
-	orig     *app.RequestContext // the context the copy was taken from
-	cp       *app.RequestContext
-	dC       dump // what the copy showed right after Copy
-	ret      []retained
-	nsent    int
-	copied   bool
-	hijacked bool
+	orig       *app.RequestContext // the context the copy was taken from
+	cp         *app.RequestContext
+	dC         dump // what the copy showed right after Copy
+	ret        []retained
+	nsent      int
+	copied     bool
+	origScheme string // scheme of a re-parse of the original at the end of its handler
+	hijacked   bool
 }
 
 func (r *run) emit(ev string, rec vtrace.Rec) {
